@@ -15,12 +15,12 @@ import (
 
 const prelude = `(declare-sort Str 0)
 (declare-sort Flt 0)
-(declare-fun str.len (Str) Int)
-(declare-fun str.at (Str Int) Int)
-(declare-fun str.empty () Str)
-(assert (= (str.len str.empty) 0))
-(assert (forall ((s Str)) (! (>= (str.len s) 0) :pattern ((str.len s)))))
-(assert (forall ((s Str) (i Int)) (! (and (<= 0 (str.at s i)) (<= (str.at s i) 255)) :pattern ((str.at s i)))))
+(declare-fun gs.len (Str) Int)
+(declare-fun gs.at (Str Int) Int)
+(declare-fun gs.empty () Str)
+(assert (= (gs.len gs.empty) 0))
+(assert (forall ((s Str)) (! (>= (gs.len s) 0) :pattern ((gs.len s)))))
+(assert (forall ((s Str) (i Int)) (! (and (<= 0 (gs.at s i)) (<= (gs.at s i) 255)) :pattern ((gs.at s i)))))
 (declare-fun flt.zero () Flt)
 (declare-fun flt.add (Flt Flt) Flt)
 (declare-fun flt.sub (Flt Flt) Flt)
@@ -142,6 +142,7 @@ func VerifyFunction(P *Program, C *Contracts, fn *ssa.Function, fc *FuncContract
 	st := &State{pc: "true", cells: map[*Cell]Val{}, heap: map[string]string{}, globals: map[*ssa.Global]Val{}, epoch: "0"}
 	st.top = e.ctx.Declare("top0", "Int")
 	e.ctx.Assume(sx("<=", "0", st.top))
+	e.entryTop = st.top
 	params := make([]Val, len(fn.Params))
 	for i, p := range fn.Params {
 		params[i] = e.freshVal("p$"+p.Name(), p.Type(), st)
